@@ -513,6 +513,13 @@ theorem step_waitChan (s : State) (op : Op) (h : WaitChan s) : WaitChan (step s 
     split
     · exact (h.frame (setConn_cframe none s c _)).frame (CFrame.of_eq rfl rfl)
     · exact h
+  | connFail c =>
+    simp only [step]
+    split
+    · split
+      · exact (h.frame (setConn_cframe none s c _)).frame (CFrame.of_eq rfl rfl)
+      · exact h
+    · exact h
   | run => exact runAll_waitChan _ s h
   | tick ms => exact h.frame (CFrame.of_eq rfl rfl)
   | mark => exact h
